@@ -1,0 +1,57 @@
+//! Observation hooks for the verification harness in /verif.
+//!
+//! Compiled only with `--cfg tulisp_verif`; add-only, nothing here is used by the crate.
+
+use crate::{Error, TulispContext, TulispObject, TulispValue};
+
+/// Reads (and, as `eval_string` does, macro-expands) `text` without evaluating the
+/// resulting program.
+pub fn verif_parse(ctx: &mut TulispContext, text: &str) -> Result<TulispObject, Error> {
+    crate::parse::parse(ctx, 0, text)
+}
+
+/// The variant of a value, for canonical printing of the kinds that have no public predicate.
+pub fn verif_kind(obj: &TulispObject) -> &'static str {
+    match &*obj.inner_ref() {
+        TulispValue::Nil => "nil",
+        TulispValue::T => "t",
+        TulispValue::Symbol { .. } => "symbol",
+        TulispValue::LexicalBinding { .. } => "cell",
+        TulispValue::Int { .. } => "int",
+        TulispValue::Float { .. } => "float",
+        TulispValue::String { .. } => "string",
+        TulispValue::List { .. } => "list",
+        TulispValue::Quote { .. } => "quote",
+        TulispValue::Sharpquote { .. } => "sharpquote",
+        TulispValue::Backquote { .. } => "backquote",
+        TulispValue::Unquote { .. } => "unquote",
+        TulispValue::Splice { .. } => "splice",
+        TulispValue::Any(_) => "any",
+        TulispValue::Func(_) => "func",
+        TulispValue::Macro(_) => "macro",
+        TulispValue::Defmacro { .. } => "defmacro",
+        TulispValue::Lambda { .. } => "lambda",
+        TulispValue::Bounce => "bounce",
+    }
+}
+
+/// The value wrapped by a quote / backquote / unquote / splice object.
+pub fn verif_unwrap(obj: &TulispObject) -> Option<TulispObject> {
+    match &*obj.inner_ref() {
+        TulispValue::Quote { value }
+        | TulispValue::Sharpquote { value }
+        | TulispValue::Backquote { value }
+        | TulispValue::Unquote { value }
+        | TulispValue::Splice { value } => Some(value.clone()),
+        _ => None,
+    }
+}
+
+/// Parameter names and body of a lambda / defmacro object (for inspecting tail-call marking
+/// and variable capture).
+pub fn verif_body(obj: &TulispObject) -> Option<TulispObject> {
+    match &*obj.inner_ref() {
+        TulispValue::Lambda { body, .. } | TulispValue::Defmacro { body, .. } => Some(body.clone()),
+        _ => None,
+    }
+}
